@@ -38,9 +38,16 @@ def run(refs, threads=(1, 2, 3), shapes=(0, 1, 2), env=None):
             st = re.search(r"(\d+) states, stored", r.stdout)
             model_errors = int(m.group(1)) if m else -1
             k = SHAPES[sh][0]
-            rr = subprocess.run([exe, "--mode", "explore", "--input", str(k), "--threads", str(N), "--nested", "0", "--bound", "99",
-                                 "--onlybound", "1", "--yields", "0", "--lazy", "0", "--cost", "0", "--ref", refs[k]],
-                                capture_output=True, text=True, env=env, timeout=1800)
+            try:
+                # "--deadline": the explorer stops by itself and reports complete=0 (the unchanged tree needs seconds; a tree whose
+                # parallel regions have more scheduling points than the model knows - e.g. a dynamic loop schedule - does not finish)
+                rr = subprocess.run([exe, "--mode", "explore", "--input", str(k), "--threads", str(N), "--nested", "0", "--bound", "99",
+                                     "--onlybound", "1", "--yields", "0", "--lazy", "0", "--cost", "0", "--ref", refs[k], "--deadline", "240"],
+                                    capture_output=True, text=True, env=env, timeout=600)
+            except subprocess.TimeoutExpired:
+                e.append("conformance run of the implementation did not finish for %s with %d threads: the code has more scheduling points "
+                         "than the Promela model describes (model and code have diverged)" % (SHAPES[sh][1], N))
+                return o, e
             b = [l for l in rr.stdout.split("\n") if l.startswith("B ")]
             f = [l for l in rr.stdout.split("\n") if l.startswith("F ") or l.startswith("C ")]
             impl = dict(kv.split("=") for kv in b[-1][2:].split()) if b else {}
